@@ -1,12 +1,14 @@
 /-
   C11 — Constants are rendered as literals that evaluate to the original value.
   Model: Drx/Lscr/Const.lean (parse_lrcr_crb, escape_string, Int1b/Int2b, unpack_float80, ConstantValue.generate_lingo /
-  generate_js); readers (the meaning of "evaluates to"): Drx/Lscr/LitEval.lean; helper lemmas: DrxProofs/LscrConst.lean.
+  generate_js); readers (the meaning of "evaluates to"): Drx/Lscr/LitEval.lean, LitEvalFloat.lean; helper lemmas:
+  DrxProofs/LscrConst.lean, LscrLingoStr.lean, LscrFloat.lean.
 -/
 import Drx.Lscr
 import Drx.Lscr.LitEval
 import DrxProofs.LscrConst
 import DrxProofs.LscrLingoStr
+import DrxProofs.LscrFloat
 namespace Drx.C11
 open Drx Drx.Lscr
 
@@ -230,5 +232,43 @@ theorem C11_witness_F17 :
   decide
 
 theorem C11_strings_full_false : ¬ C11_strings_full := fun h => C11_strings_full_fails_F15 (h _)
+
+/-! ### floats
+
+  An 80-bit extended constant with sign/exponent word `e` and mantissa `q` has the value ±q·2^(k−63), k = (e mod 2^15) − 16383.
+  `unpack_float80` computes `(q*2.0)/(1<<64) * pow(2, k)` in double arithmetic — two roundings — and prints it with `'%s'`.  -/
+
+/-- no hypothesis: whenever the nearest double of the value is not in the denormal range (`bitLen q − 53 + k − 63 ≥ −1074`),
+    the two roundings of the Python expression give the correctly rounded value (or infinity, which prints as `inf`: F19) -/
+theorem float80_correctly_rounded (q : Nat) (k : Int) (hq0 : q ≠ 0) (hq : q < 2 ^ 64) (hk : k ≤ 1023)
+    (hn : -1074 ≤ (bitLen q : Int) - 53 + (k - 63)) : float80Value q k = .ok (roundDbl q (k - 63)) :=
+  float80Value_normal hq0 hq k hk hn
+
+/-- normal 80-bit values (explicit integer bit set): exactly the exponents −1022 … 1023 of normal doubles -/
+theorem float80_normal_values (q : Nat) (k : Int) (hq63 : 2 ^ 63 ≤ q) (hq : q < 2 ^ 64) (h1 : -1022 ≤ k) (h2 : k ≤ 1023) :
+    float80Value q k = .ok (roundDbl q (k - 63)) := by
+  have hb : bitLen q = 64 := bitLen_of_range hq63 hq
+  have hq0 : q ≠ 0 := by have := Nat.two_pow_pos 63; omega
+  exact float80Value_normal hq0 hq k h2 (by rw [hb]; omega)
+
+/-- **C11 for floats, partial** — hypothesis (a premise, not an axiom): `repr(float)` round-trips (`ReprRoundTrips`: the
+    shortest-digits text of a finite double reads back as that double).  Then for every 80-bit constant whose nearest double
+    `m·2^ex` is normal, the text `unpack_float80` returns reads back as exactly that double with the constant's sign.
+    Outside this domain: zero prints `0.0` (right), the denormal range is finding F102, infinities / NaN / beyond the
+    double range are finding F19. -/
+theorem float_normal_partial (H : ReprRoundTrips) (e q : Nat) (he : e < 65536) (hq0 : q ≠ 0) (hq : q < 2 ^ 64)
+    (k : Int) (hk' : k = ((if e ≥ 0x8000 then e - 0x8000 else e : Nat) : Int) - 16383) (hk : k ≤ 1023)
+    (hn : -1074 ≤ (bitLen q : Int) - 53 + (k - 63)) (m : Nat) (ex : Int) (hfin : roundDbl q (k - 63) = .fin m ex) :
+    ∃ t, unpackFloat80 (f80Bytes e q) = .ok t ∧ readDbl t = some (decide (e ≥ 0x8000), .fin m ex) :=
+  unpackFloat80_normal H e q he hq0 hq k hk' hk hn m ex hfin
+
+/-- the hypothesis holds on samples (checked on every run for thousands of doubles by `lscr readdbl`); here 0.1 and 2^-1022 -/
+example : readDbl (reprDbl false (.fin 0x1999999999999a (-56))) = some (false, .fin 0x1999999999999a (-56)) := by decide +kernel
+example : reprDbl false (.fin 0x1999999999999a (-56)) = S "0.1" := by decide +kernel
+
+/-- F102: in the denormal range the second rounding is not exact — `bbcc 91cd311c52bafb59` (k = −1075): the value is above
+    half of the smallest denormal (nearest double: 5e-324) but the computed product is 0.0 -/
+theorem C11_witness_F102 : (float80Value 0x91cd311c52bafb59 (-1075)).toOption = some (.fin 0 (-1074)) ∧
+    roundDbl 0x91cd311c52bafb59 (-1075 - 63) = .fin 1 (-1074) := by decide +kernel
 
 end Drx.C11
